@@ -148,7 +148,7 @@ package lint
 //@                    inWindow(old(l.EffectiveDate), old(l.IneffectiveDate), old(cert.NotBefore)),
 //@              g.nExec == 1 && g.recvExec == g.retCtor && g.tApplies < g.tExec && result == g.retExec)
 
-//@ func (*CertificateLint).Execute [C01 C03 C04 C10 C11]
+//@ func (*CertificateLint).Execute [C01 C03 C04 C07 C10 C11]
 //@   requires l != nil && cert != nil && l.Lint != nil && cfgOK(config)
 //@   nopanic
 //@   assigns \fresh
@@ -157,8 +157,9 @@ package lint
 //@   ensures [C03] implies(!inWindow(old(l.EffectiveDate), old(l.IneffectiveDate), old(cert.NotBefore)),
 //@              result.Status != Pass && result.Status != Notice && result.Status != Warn && result.Status != Error)
 //@   ensures [C04] implies(!g.panicked && !old(inScope(l.Source, cert)), result.Status == NA)
+//@   assume [C07] result.Status == certVerdictS(l, cert, config) && result.Details == certVerdictD(l, cert, config) -- determinism of one lint execution: C05
 
-//@ func (*RevocationListLint).Execute [C01 C03 C04 C10 C11]
+//@ func (*RevocationListLint).Execute [C01 C03 C04 C07 C10 C11]
 //@   requires l != nil && r != nil && l.Lint != nil && cfgOK(config)
 //@   maypanic
 //@   assigns \fresh
@@ -175,8 +176,9 @@ package lint
 //@   ensures [C04] implies(g.retCfg == nil && g.retApplies &&
 //@                    inWindow(old(l.EffectiveDate), old(l.IneffectiveDate), old(r.ThisUpdate)),
 //@              g.nExec == 1 && g.recvExec == g.retCtor && g.tApplies < g.tExec && result == g.retExec)
+//@   assume [C07] result.Status == crlVerdictS(l, r, config) && result.Details == crlVerdictD(l, r, config) -- determinism of one lint execution: C05
 
-//@ func (*OcspResponseLint).Execute [C01 C03 C04 C10 C11]
+//@ func (*OcspResponseLint).Execute [C01 C03 C04 C07 C10 C11]
 //@   requires l != nil && o != nil && l.Lint != nil && cfgOK(config)
 //@   maypanic
 //@   assigns \fresh
@@ -193,6 +195,7 @@ package lint
 //@   ensures [C04] implies(g.retCfg == nil && g.retApplies &&
 //@                    inWindow(old(l.EffectiveDate), old(l.IneffectiveDate), old(o.NextUpdate)),
 //@              g.nExec == 1 && g.recvExec == g.retCtor && g.tApplies < g.tExec && result == g.retExec)
+//@   assume [C07] result.Status == ocspVerdictS(l, o, config) && result.Details == ocspVerdictD(l, o, config) -- determinism of one lint execution: C05
 
 // ---------------------------------------------------------------------------
 // registry accessors as the result-set builder sees them (C01). The well-formedness
@@ -731,7 +734,18 @@ package lint
 //@      baseof(F.certificateLints.lintNames) != baseof(F.revocationListLints.lintNames) &&
 //@      baseof(F.ocspResponseLints.lintNames) != baseof(F.revocationListLints.lintNames)
 
-//@ func (*registryImpl).Filter [C08]
+// subRegistry(F, r): every lint of F is the very same lint object registered under the same name and
+// kind in r, and F carries r's configuration (what C07 needs from Filter)
+//@ spec subRegistry(F *registryImpl, r *registryImpl) bool =
+//@      all(n, string, implies(indom(F.certificateLints.lintsByName, n), indom(r.certificateLints.lintsByName, n) &&
+//@                            F.certificateLints.lintsByName[n] == r.certificateLints.lintsByName[n])) &&
+//@      all(n, string, implies(indom(F.ocspResponseLints.lintsByName, n), indom(r.ocspResponseLints.lintsByName, n) &&
+//@                            F.ocspResponseLints.lintsByName[n] == r.ocspResponseLints.lintsByName[n])) &&
+//@      all(n, string, implies(indom(F.revocationListLints.lintsByName, n), indom(r.revocationListLints.lintsByName, n) &&
+//@                            F.revocationListLints.lintsByName[n] == r.revocationListLints.lintsByName[n])) &&
+//@      F.configuration == r.configuration
+
+//@ func (*registryImpl).Filter [C07 C08]
 //@   requires wfRegistry(r) && xdistinct(r) && cfgOK(r.configuration)
 //@   maypanic
 //@   assigns \fresh
@@ -758,6 +772,7 @@ package lint
 //@   ensures implies(!opts.Empty() && result1 == nil, typeIs(result0, *registryImpl) && fresh(unbox(result0, *registryImpl)) &&
 //@                   wfRegistry(unbox(result0, *registryImpl)) && unbox(result0, *registryImpl).configuration == old(r.configuration))
 //@   ensures implies(!opts.Empty() && result1 == nil, xdistinct(unbox(result0, *registryImpl)) && freshRep(unbox(result0, *registryImpl)))
+//@   ensures [C07 C08] implies(result1 == nil, subRegistry(unbox(result0, *registryImpl), r))
 //@   ensures implies(!opts.Empty() && result1 == nil, all(n, string, indom(unbox(result0, *registryImpl).certificateLints.lintsByName, n) == selCert0(r, opts, n)))
 //@   ensures implies(!opts.Empty() && result1 == nil, all(n, string, implies(indom(unbox(result0, *registryImpl).certificateLints.lintsByName, n),
 //@                   unbox(result0, *registryImpl).certificateLints.lintsByName[n] == old(r.certificateLints.lintsByName[n]))))
@@ -796,3 +811,18 @@ package lint
 //@   ensures wfRegistry(globalRegistry)
 //@   ensures l != nil && l.Name != "" && !old(indom(globalRegistry.ocspResponseLints.lintsByName, l.Name)) && globalRegistry.ocspResponseLints.lintsByName[l.Name] == l
 //@   ensures all(n, string, indom(globalRegistry.ocspResponseLints.lintsByName, n) == (old(indom(globalRegistry.ocspResponseLints.lintsByName, n)) || n == l.Name))
+
+// ---------------------------------------------------------------------------
+// one lint execution as a function (C07): the status and details that executing lint l on an object
+// under a configuration yields. That an execution IS a function of these three (deterministic,
+// history-independent, no ambient input) is property C05; here it is named so that the result-set
+// builder's contract can say which execution each stored result comes from.
+//@ spec certVerdictS(l *CertificateLint, c *x509.Certificate, cfg Configuration) LintStatus
+//@ spec certVerdictD(l *CertificateLint, c *x509.Certificate, cfg Configuration) string
+//@ spec crlVerdictS(l *RevocationListLint, c *x509.RevocationList, cfg Configuration) LintStatus
+//@ spec crlVerdictD(l *RevocationListLint, c *x509.RevocationList, cfg Configuration) string
+//@ spec ocspVerdictS(l *OcspResponseLint, c *ocsp.Response, cfg Configuration) LintStatus
+//@ spec ocspVerdictD(l *OcspResponseLint, c *ocsp.Response, cfg Configuration) string
+//@ trace func (*CertificateLint).Execute as Run
+//@ trace func (*RevocationListLint).Execute as CrlRun
+//@ trace func (*OcspResponseLint).Execute as OcspRun
